@@ -617,6 +617,25 @@ class Interp:
                     env.vars[dl[1]] = BV(self.load(sl, env).bits, dl[3])
                     return BV([], False)
             raise Unsupported("memcpy that is not a whole-object copy between two scalars")
+        if n.get("op") in ("==", "!=") and (c.get("name") or "").startswith("std::operator"):
+            # std::tie(a, b, ..) == std::tie(c, d, ..): member-wise equality of the tied values
+            ops = ([n["obj"]] if "obj" in n else []) + list(n.get("args", []))
+
+            def tied(x):
+                for _ in range(6):
+                    x = strip_all_casts(x)
+                    if x.get("k") in ("construct", "temp") and len(x.get("args", [])) == 1:
+                        x = x["args"][0]
+                        continue
+                    break
+                return x.get("args", []) if x.get("k") == "call" and (x.get("callee") or {}).get("name") == "std::tie" else None
+            if len(ops) == 2:
+                ta, tb = tied(ops[0]), tied(ops[1])
+                if ta is not None and tb is not None and len(ta) == len(tb) and ta:
+                    acc = C1
+                    for x, y in zip(ta, tb):
+                        acc = t_and(acc, self.binop("==", self.ev(x, env, depth), self.ev(y, env, depth), None).bits[0])
+                    return BV([acc if n["op"] == "==" else t_not(acc)], False)
         g = self.fb.resolve_call(n)
         if g is None or g.body is None:
             raise Unsupported("call to %s (no body under the analysed root)" % c.get("name"))
